@@ -264,20 +264,28 @@ static std::string step(const std::string& line) {
     Error e = code.relocate_to_base(u0, &sum);
     return answer(e) + " " + std::to_string(e == Error::kOk ? sum.code_size_reduction : 0);
   }
-  if (op == "jitadd" && w.size() == 1) {
-    // the real JitRuntime::add(): flatten, resolve, allocate, relocate_to_base(rx), copy. Answer: the rx pointer, the final
-    // code size and the bytes found at rx. On failure the span was released again: `probe=` is the address the (deterministic)
-    // allocator hands out for the same request, i.e. the base relocate_to_base was called with.
+  if (op == "jitadd" && (w.size() == 1 || w.size() == 2)) {
+    // the real JitRuntime::add(): flatten, resolve, allocate, relocate_to_base(rx), copy through rw. `jitadd <mask>` selects
+    // JitAllocatorOptions (1 = kUseDualMapping: rx != rw, 2 = kUseMultiplePools, 8 = kImmediateRelease, 0x10 =
+    // kDisableInitialPadding); kFillUnusedMemory with pattern 0xCC is always on. Answer: the rx pointer, the final code size,
+    // the bytes read through rx, the writable address of the span and CodeHolder::base_address(). On failure the span was
+    // released again: `probe=` is the executable address the (deterministic) allocator hands out for the same request.
+    uint64_t mask = 0;
+    if (w.size() == 2 && !vh::parse_hex(w[1], mask)) return "bad-op";
     JitAllocator::CreateParams params;
-    params.options = JitAllocatorOptions::kFillUnusedMemory | JitAllocatorOptions::kCustomFillPattern;
+    params.options = JitAllocatorOptions::kFillUnusedMemory | JitAllocatorOptions::kCustomFillPattern | JitAllocatorOptions(uint32_t(mask) & 0x1Bu);
     params.fill_pattern = 0xCCCCCCCCu;
     P->rt.reset(new JitRuntime(&params));
     P->fn = nullptr;
     Error e = P->rt->add(&P->fn, &code);
     if (e == Error::kOk) {
       size_t n = code.code_size();
+      JitAllocator::Span span;
+      uint64_t rw = 0;
+      if (P->rt->allocator().query(Out(span), P->fn) == Error::kOk) rw = uint64_t(uintptr_t(span.rw()));
       return answer(e) + " " + vh::to_hex(uint64_t(uintptr_t(P->fn))) + " " + std::to_string(n) + " " +
-             (n ? vh::bytes_to_hex(static_cast<const uint8_t*>(P->fn), n) : std::string("-"));
+             (n ? vh::bytes_to_hex(static_cast<const uint8_t*>(P->fn), n) : std::string("-")) +
+             " rw=" + vh::to_hex(rw) + " base=" + vh::to_hex(code.base_address());
     }
     uint64_t probe = 0;
     size_t est = code.code_size();
